@@ -318,6 +318,13 @@ def run(chk):
                     for t in (n.targets if isinstance(n, (ast.Assign, ast.Delete)) else [n.target]):
                         if isinstance(t, ast.Subscript) and isinstance(t.value, ast.Attribute):
                             attr_mut.append((mod, q, fn, n, t.value))
+    attr_reads = []
+    for rel, tree in iter_sources(chk):
+        mod_ = ("dep_logic." + rel[:-3].replace("/", ".")).replace(".__init__", "")
+        for q_, fn_ in functions(tree):
+            for x in ast.walk(fn_):
+                if isinstance(x, ast.Attribute) and isinstance(x.ctx, ast.Load) and x.attr.startswith("_") and not x.attr.startswith("__"):
+                    attr_reads.append((mod_, q_, x.attr))
     chk.instance("R10.1", len(inventory))
     for mod, q, fn, kind in inventory:
         chk.ok("R10.1", key=(mod, q, kind), nontrivial=False)
@@ -451,17 +458,34 @@ def run(chk):
         if leaf in ("__init__", "__post_init__"):
             chk.ok("R10.3", key=(mod, q, text))
             continue
-        # lazy-cache idiom: guarded by `if self.<attr> is None:`
-        okk = False
-        for t in ast.walk(fn):
-            # lazy-cache idiom in any spelling: the method tests `self.<attr> is (not) None` and fills the private attribute
-            if (isinstance(t, ast.Compare) and len(t.ops) == 1 and isinstance(t.ops[0], (ast.Is, ast.IsNot)) and ast.unparse(t.left) == f"self.{a.attr}"
-                    and isinstance(t.comparators[0], ast.Constant) and t.comparators[0].value is None):
-                okk = True
-        if okk and a.attr.startswith("_"):
+        # memoising a pure function of self, in any spelling (guarded by `is None`, via a local, walrus, early return ...): the attribute is
+        # private, the stored value does not depend on any parameter other than self, and nothing outside this method reads the attribute
+        ok_private = a.attr.startswith("_")
+        others = {p.arg for p in fn.args.posonlyargs + fn.args.args + fn.args.kwonlyargs if p.arg != "self"}
+        if fn.args.vararg:
+            others.add(fn.args.vararg.arg)
+        if fn.args.kwarg:
+            others.add(fn.args.kwarg.arg)
+        tainted = set(others)
+        grew = True
+        while grew:
+            grew = False
+            for t in ast.walk(fn):
+                if isinstance(t, ast.Assign) and any(isinstance(x, ast.Name) and x.id in tainted for x in ast.walk(t.value)):
+                    for tg in t.targets:
+                        for x in ast.walk(tg):
+                            if isinstance(x, ast.Name) and x.id not in tainted:
+                                tainted.add(x.id)
+                                grew = True
+        value = n.value if isinstance(n, (ast.Assign, ast.AnnAssign, ast.AugAssign)) else None
+        ok_value = value is not None and not any(isinstance(x, ast.Name) and x.id in tainted for x in ast.walk(value)) and not isinstance(n, ast.AugAssign)
+        outside = [(rel2, q2) for (rel2, q2, attr2) in attr_reads if attr2 == a.attr and not (rel2 == mod and q2 == q)]
+        if ok_private and ok_value and not outside:
             chk.ok("R10.3", key=(mod, q, text))
         else:
-            chk.fail("R10.3", f"{mod}:{q}:{text}", f"`{text}` mutates self outside a constructor and outside the lazy-cache idiom `if self._x is None: self._x = ...`")
+            why = ("the attribute is public" if not ok_private else "the stored value depends on an argument of the call" if not ok_value
+                   else f"the attribute is also read in {outside[0][1]}")
+            chk.fail("R10.3", f"{mod}:{q}:{text}", f"`{text}` mutates self outside a constructor and is not the memoisation of a pure function of self ({why})")
     for mod, q, fn, n, target in attr_mut:
         chk.instance("R10.3")
         leaf = q.split(".")[-1]
